@@ -197,6 +197,12 @@ def code_specs(families=None, max_n=None):
                 for info in ("left", "right"):
                     out.append(spec("CyclicCodeEncoder", code_length=n, generator_polynomial=g, information_set=info))
                 out.append(spec("CyclicCodeEncoder", code_length=n, check_polynomial=h))
+                k_ = n - (g.bit_length() - 1)
+                if n <= 9 and 1 < k_ < n:
+                    # custom (non-window) information sets, from either polynomial
+                    idx = sorted(random.Random(1000 * n + g).sample(range(n), k_))      # own generator: the shared stream (and with it the rest of the catalogue) stays as it was
+                    out.append(spec("CyclicCodeEncoder", code_length=n, check_polynomial=h, information_set=idx))
+                    out.append(spec("CyclicCodeEncoder", code_length=n, generator_polynomial=g, information_set=idx))
         for name in ("Hamming(7,4)", "Simplex(7,3)", "BCH(15,7)", "BCH(15,5)", "Golay(23,12)"):
             for info in ("left", "right"):
                 out.append(spec("CyclicCodeEncoder", "create_standard_code", name=name, information_set=info))
